@@ -379,7 +379,7 @@ def corpus(ctx, rng):
                 hdrs.append((t, v))
         out.append(('lp', rc.make_lp(fragment=frag, pit_token=rng.choice([None, b'', b'\x01\x02\x03\x04', gen.rand_bytes(rng, 32)]),
                                      nack_reason=rng.choice([None, None, 0, 50, 150, 2**40]), nack=rng.random() < 0.1, headers=hdrs,
-                                     frag_index=rng.choice([None, None, None, 0]), frag_count=rng.choice([None, None, None, 2]))))
+                                     frag_index=rng.choice([None, None, None, None, 0, 1, 5]), frag_count=rng.choice([None, None, None, None, 0, 1, 2, 7]))))
     import datetime
     for _ in range(ctx.n(4, 192)):
         kind = rng.choice(['ecdsa256', 'ecdsa256', 'rsa', 'ed25519'])
@@ -471,6 +471,12 @@ def run(ctx):
             wire = rc.enc_var(t) + rc.enc_var(len(body) + rng.choice([0, 0, 0, 1, -1, 300])  if len(body) else 0) + body
             klass = 'random-in-outer'
         judge(ctx, dec, wire, klass, steps=(i % 10 == 0))
+    # every combination of fragmentation headers (this library reassembles nothing: an envelope that says it is a piece is refused)
+    inner = rc.make_data(gen.simple_name(rng), content=b'piece', content_type=0, sig_type=0, sig_value=bytes(32))
+    for fi in (None, 0, 1, 2, 5, 255, 256, 2**32):
+        for fc in (None, 0, 1, 2, 7, 256, 2**32):
+            for extra in ({}, {'pit_token': b'\x01\x02'}, {'nack_reason': 50}):
+                judge(ctx, 'lp', rc.make_lp(fragment=inner, frag_index=fi, frag_count=fc, **extra), 'frag-header-sweep', steps=False)
     # large inputs for the linear-time clause
     for n in ((300, 3000) if ctx.quick else (300, 3000, 30000)):
         for dec, wire in (('data', rc.make_data([b'\x08\x00'] * n, content=b'', content_type=0, sig_type=0, sig_value=bytes(32))),
